@@ -103,9 +103,120 @@ impl Monitor for M {
                 }
             }
         }
+        // ---- (b') configurations whose arguments are NOT well-formed (name/unit presence not matching
+        // the flag, fixed-point data on a plain kind, value variant of another width): the constructor
+        // takes any configuration, so the recorded lengths must still be those of its own serialisation
+        if ctx.index % 8 == 5 {
+            let mut o = GenOpts::small();
+            o.force_kind = Some(crate::gen_msg::PKind::Verbose);
+            o.force_storage = Some(false);
+            let base = gen_msg(&mut ctx.rng, &o);
+            if let (PayloadContent::Verbose(mut args), Some(x)) = (base.payload.clone(), base.extended_header.clone()) {
+                if args.is_empty() {
+                    args.push(gen_arg(&mut ctx.rng, 40));
+                }
+                let k = ctx.rng.usize_below(args.len());
+                let a = &mut args[k];
+                let how = match ctx.rng.below(7) {
+                    0 => {
+                        a.type_info.has_variable_info = true;
+                        a.name = Some("n".into());
+                        a.unit = None;
+                        "vari_without_unit"
+                    }
+                    1 => {
+                        a.type_info.has_variable_info = true;
+                        a.name = None;
+                        a.unit = None;
+                        "vari_without_name"
+                    }
+                    2 => {
+                        a.type_info.has_variable_info = false;
+                        a.name = Some("stray".into());
+                        "name_without_vari"
+                    }
+                    3 => {
+                        a.type_info.has_variable_info = false;
+                        a.unit = Some("u".into());
+                        "unit_without_vari"
+                    }
+                    4 => {
+                        a.fixed_point = Some(FixedPoint {
+                            quantization: 1.0,
+                            offset: FixedPointValue::I32(1),
+                        });
+                        "stray_fixed_point_data"
+                    }
+                    5 => {
+                        a.value = Value::U8(7);
+                        "value_of_other_width"
+                    }
+                    _ => {
+                        a.type_info.has_variable_info = true;
+                        a.name = Some("n".into());
+                        a.unit = Some("u".into());
+                        "name_and_unit_on_any_kind"
+                    }
+                };
+                let conf = MessageConfig {
+                    version: base.header.version,
+                    counter: base.header.message_counter,
+                    endianness: base.header.endianness,
+                    ecu_id: base.header.ecu_id.clone(),
+                    session_id: base.header.session_id,
+                    timestamp: base.header.timestamp,
+                    payload: PayloadContent::Verbose(args),
+                    extended_header_info: Some(ExtendedHeaderConfig {
+                        message_type: x.message_type.clone(),
+                        app_id: x.application_id.clone(),
+                        context_id: x.context_id.clone(),
+                    }),
+                };
+                let hl = 14 + 4 * conf.ecu_id.is_some() as usize + 4 * conf.session_id.is_some() as usize + 4 * conf.timestamp.is_some() as usize;
+                ctx.eval();
+                let c2 = conf.clone();
+                match guarded(move || {
+                    let m = Message::new(c2, None);
+                    let b = m.as_bytes();
+                    (m.header.payload_length, m.byte_len(), b)
+                }) {
+                    Err(_) => ctx.obs("new.illformed_argument.panicked(not_demanded)"),
+                    Ok((pl, bl, bytes)) => {
+                        ctx.shape(&("new_illformed", how), true);
+                        if bytes.len() > 65535 {
+                            ctx.obs("new.skipped_does_not_fit");
+                        } else if pl as usize != bytes.len() - hl {
+                            ctx.violation("new.payload_length", &format!("illformed_argument:{}", how), || {
+                                J::obj().set("config", crate::json::trunc(&format!("{:?}", conf), 900)).set("recorded_payload_length", pl).set("serialised_payload", bytes.len() - hl).set("how", how)
+                            });
+                        } else if bl as usize != bytes.len() {
+                            ctx.violation("new.byte_len", &format!("illformed_argument:{}", how), || {
+                                J::obj().set("config", crate::json::trunc(&format!("{:?}", conf), 900)).set("byte_len", bl).set("serialised", bytes.len())
+                            });
+                        } else if bytes.len() >= 4 && u16::from_be_bytes([bytes[2], bytes[3]]) as usize != bytes.len() {
+                            ctx.violation("new.serialised_size", &format!("illformed_argument:{}", how), || {
+                                J::obj().set("config", crate::json::trunc(&format!("{:?}", conf), 900)).set("length_field", u16::from_be_bytes([bytes[2], bytes[3]])).set("serialised", bytes.len())
+                            });
+                        } else {
+                            ctx.obs("new.illformed_argument.lengths_consistent");
+                        }
+                    }
+                }
+            }
+        }
         // ---- (b)-(d) Message::new over every payload kind x optional fields x ext present/absent
-        let mut o = if light { GenOpts::small() } else { GenOpts::normal() };
-        o.typical_total = 160;
+        let mut o = if light {
+            GenOpts::small()
+        } else if ctx.index % 211 == 3 {
+            // one of the 16 largest declarable lengths (also together with a storage header)
+            ctx.obs("new.near_max_length");
+            GenOpts::near_max(&mut ctx.rng)
+        } else {
+            GenOpts::normal()
+        };
+        if !o.force_exact {
+            o.typical_total = 160;
+        }
         o.force_storage = Some(false);
         let base = gen_msg(&mut ctx.rng, &o);
         // the configuration takes payload and header options independently: also unrepresentable ones
@@ -295,7 +406,7 @@ impl Monitor for M {
 
     fn describe(&self, ctx: &Ctx) -> J {
         super::describe(
-            "per case: 6 well-formed arguments (all 19 kinds, VARI on/off, texts with multi-byte scalars, 1 in 30 with 60 KB data) for the length clause; one MessageConfig built from a generated message: every payload kind x optional ECU/session/timestamp x byte order, extended-header info matching the payload (60 %), absent (20 %) or of an arbitrary message type (20 %, unrepresentable combinations are checked for the length/flag clauses only), with/without a storage header, then add_storage_header with a given time (2/3) or the clock (1/3); every 64th case additionally enumerates {bool,f32,f64} x all 15 value variants for valid(). distinct = (clause, payload kind, ext present, byte order, storage variant, optional-field flags) / (kind, VARI, size bucket); all non-trivial",
+            "per case: 6 well-formed arguments (all 19 kinds, VARI on/off, texts with multi-byte scalars, 1 in 30 with 60 KB data) for the length clause; one MessageConfig built from a generated message: every payload kind x optional ECU/session/timestamp x byte order, extended-header info matching the payload (60 %), absent (20 %) or of an arbitrary message type (20 %, unrepresentable combinations are checked for the length/flag clauses only), with/without a storage header, then add_storage_header with a given time (2/3) or the clock (1/3); every 8th case builds a configuration with one deliberately ill-formed argument (name/unit presence not matching the flag, stray fixed-point data, value of another width) and checks the recorded lengths against the constructor's own serialisation; 1 in 211 configurations has one of the 16 largest declarable lengths; every 64th case additionally enumerates {bool,f32,f64} x all 15 value variants for valid(). distinct = (clause, payload kind, ext present, byte order, storage variant, optional-field flags) / (kind, VARI, size bucket); all non-trivial",
             &["representable = extended header absent => non-verbose payload; control payload <=> control type; network-trace payload <=> network-trace type; verbose payload => any other type", "NOAR is not checked for non-verbose/control payloads (it carries no meaning there)", "clock variant: seconds must lie between clock readings taken before and after the call"],
             &[("arglen.ok", super::scaled(ctx, 100000)), ("new.parse_back_ok", super::scaled(ctx, 20000)), ("new.parse_back_ok.networktrace", 500), ("new.parse_back_ok.control", 500), ("add_storage_header.given_ok", super::scaled(ctx, 5000)), ("add_storage_header.clock_ok", super::scaled(ctx, 2000)), ("add_storage_header.default_ecu_ok", 1000), ("valid.ok", 45)],
         )
